@@ -105,6 +105,10 @@ def run_case(c):
         return {
             "shape": list(res.shape), "no_steps": res.no_steps, "no_dimensions": res.no_dimensions,
             "lower": hexrows(res.lower_limits_lists), "samples": samples, "csv": csv_rows,
+            "physical_lower": hexrows(res.physical_lower_limits_lists),
+            "physical_upper": hexrows(res.physical_upper_limits_lists),
+            "physical_centres": hexrows(res.physical_centres_lists),
+            "native_shape": list(res.log_likelihoods().native.shape),
             "sorted_names": [model.name_for_prior(p).split("_")[0] for p in model.sort_priors_alphabetically(set(grid))],
         }
     if kind == "result":
